@@ -24,6 +24,7 @@ import ControlModel.Gen.C07Facts
 import ControlModel.Proofs.RunNumber
 import ControlModel.Proofs.RunAttempts
 import ControlModel.Proofs.RunWrites
+import ControlModel.Proofs.RunRemote
 
 open RunNumber
 
@@ -341,6 +342,114 @@ theorem C07_finding_uint32_wrap_duplicate : ¬ C07_unique_full wrappingProto := 
   have := h [.read 0, .cas 0, .foreign "4294967295".toList, .read 1, .cas 1, .read 2, .cas 2]
     { entry := none, raft := 0 } (by decide) (by decide) 0 2 1 1 (by decide) (by decide) (by decide)
   exact this rfl
+
+/-! ## the gRPC hop of a remote apricot
+
+  In production the core holds no `local.Service`: `the.ConfSvc()` is the apricot:// client
+  (`remote.RemoteService`), one `NewRunNumber` is one unary RPC served by `RpcServer.NewRunNumber`
+  in the apricot process, which calls the `local.Service` it fronts. Model/RunRemote.lean: the
+  caller still runs `read ; cas` (inside apricot); what reaches `before_event START_ACTIVITY` is the
+  call's `(value, err)` AFTER the hop. `GetNextUInt32` returns the incremented, never-stored
+  CANDIDATE next to a CAS/HTTP error, so the hop is where "the start fails instead of reusing a
+  number" is kept or lost. -/
+
+/-- The hop of the model IS the hop of the code: handler and client each make ONE call as a
+    top-level statement (no loop, no retry), the handler returns the service's error unchanged on
+    every path after the call (no path answers OK after `err != nil`), the client returns the
+    RPC's error and the literal 0 with it; on the success path the number travels unchanged
+    (`RunNumberResponse{RunNumber: rn}` → `response.GetRunNumber()`). go/ast over apricot/remote,
+    regenerated on every run; a handler that logs the error and answers OK makes this false. -/
+theorem C07_remote_hop_is_code :
+    codeHop.forwardsErr = (Gen.C07.rpcServerForwardsError && Gen.C07.rpcClientReturnsError) ∧
+    (Gen.C07.rpcServerSingleCall && Gen.C07.rpcClientSingleCall &&
+     Gen.C07.rpcServerForwardsNumber && Gen.C07.rpcClientReturnsNumber) = true := by decide
+
+/-- **A caller that goes through the hop = the same protocol call.** For every schedule, every
+    protocol setting, every assignment of callers to hops: what a caller behind the code's hop
+    adopts is exactly what the protocol call made on its behalf adopts — so every theorem of this
+    file about `returned` speaks about remote callers as well. -/
+theorem C07_remote_hop_transparent (p : Proto) (sched : List Step) (st : Store) (remote : Routing) (c : Nat) :
+    returnedVia codeHop remote (run p sched (init st)) c = returned (run p sched (init st)) c :=
+  returnedVia_code remote _ c
+
+/-- Error ⇒ no number, across the boundary: whatever value the service returned next to an error
+    (the candidate), the remote caller holds `(0, that error)` and adopts nothing; a number that
+    crossed the hop is the service's number. -/
+theorem C07_remote_error_no_number (v : Nat) (e : Err) (t t' : Nat) (q : Option Nat) :
+    (e ≠ .ok → viaHop codeHop (.done v e t t' q) = .done 0 e t t' q ∧
+               adopted (viaHop codeHop (.done v e t t' q)) = none) ∧
+    (e = .ok → viaHop codeHop (.done v e t t' q) = .done v .ok t t' q) := by
+  cases e <;> simp [viaHop, codeHop, adopted]
+
+/-- Uniqueness in full for the production layout: any schedule, any mix of callers behind hops
+    and callers holding a Service themselves, `ForeignMonotone` alone. -/
+theorem C07_remote_unique_code (sched : List Step) (st : Store) (hwf : st.WF)
+    (hfm : ForeignMonotone codeProto sched (init st) = true) (remote : Routing)
+    (a b na nb : Nat) (hab : a ≠ b)
+    (ha : returnedVia codeHop remote (run codeProto sched (init st)) a = some na)
+    (hb : returnedVia codeHop remote (run codeProto sched (init st)) b = some nb) : na ≠ nb := by
+  rw [returnedVia_code] at ha hb
+  exact C07_unique_code sched st hwf hfm a b na nb hab ha hb
+
+/-- …and real-time monotonicity, on what the callers' own sides hold. -/
+theorem C07_remote_monotone_code (sched : List Step) (st : Store) (hwf : st.WF)
+    (hfm : ForeignMonotone codeProto sched (init st) = true) (remote : Routing)
+    (a b na ta ea nb tb eb : Nat) (qa qb : Option Nat)
+    (ha : seenBy codeHop remote (run codeProto sched (init st)) a = .done na .ok ta ea qa)
+    (hb : seenBy codeHop remote (run codeProto sched (init st)) b = .done nb .ok tb eb qb)
+    (hab : ea < tb) : na < nb :=
+  C07_monotone_code sched st hwf hfm a b na ta ea qa nb tb eb qb (seenBy_code_ok ha) (seenBy_code_ok hb) hab
+
+/-- A number that reached a remote caller was paid for by a write of the very call made on its
+    behalf (any schedule, any protocol setting). -/
+theorem C07_remote_number_needs_own_write (p : Proto) (sched : List Step) (st : Store)
+    (remote : Routing) (c n : Nat)
+    (hc : returnedVia codeHop remote (run p sched (init st)) c = some n) :
+    ∃ t t' i, (run p sched (init st)).callers c = .done n .ok t t' (some i) ∧
+      ({ caller := c, num := n, started := t, ended := t' } : Ret) ∈ (run p sched (init st)).log := by
+  rw [returnedVia_code] at hc
+  exact C07_number_needs_own_write p sched st c n hc
+
+/-- The model's observation of a routed case (numbers as they came back through the hop, requests
+    as Consul processed them) is the direct callers' observation, and satisfies the two
+    per-call clauses of `SpecObs`: no number next to a refused write, no number without an own
+    applied write — every schedule, every routing. -/
+theorem C07_remote_obs_spec (p : Proto) (sched : List Step) (st : Store) (remote : Routing) (n : Nat) :
+    obsVia codeHop remote n (run p sched (init st)) = obsOf n (run p sched (init st)) ∧
+    refusedIsErr (obsVia codeHop remote n (run p sched (init st))) = true ∧
+    ownWriteB (obsVia codeHop remote n (run p sched (init st))) = true := by
+  rw [obsVia_code]
+  exact ⟨rfl, refused_obs n _, C07_own_write_spec p sched st n⟩
+
+/-- **The error must cross the boundary.** Through a hop that answers OK whatever the backend
+    said, in ANY state a remote caller whose write Consul refuses — or whose write request fails —
+    is handed the candidate `incr32 v` as its run number while store and log stay exactly as they
+    were: a number without the counter having advanced. -/
+theorem C07_swallowed_error_hands_out_candidate (p : Proto) (hcas : p.useCas = true) (hchk : p.checkOk = true)
+    (remote : Routing) (s : Sys) (c v i t : Nat) (hr : remote c = true) (hc : s.callers c = .holding v i t) :
+    (s.store.casOk i = false →
+      returnedVia swallowingHop remote (step p (.cas c) s) c = some (incr32 v) ∧
+      (step p (.cas c) s).store = s.store ∧ (step p (.cas c) s).log = s.log) ∧
+    (returnedVia swallowingHop remote (step p (.fail c) s) c = some (incr32 v) ∧
+      (step p (.fail c) s).store = s.store ∧ (step p (.fail c) s).log = s.log) :=
+  ⟨fun hno => swallowed_cas p hcas hchk remote s c v i t hr hc hno, swallowed_fail p remote s c v i t hr hc⟩
+
+/-- Witness: two starts of one core race through one remote apricot (`read 0, read 1, cas 0,
+    cas 1` from "41"). With the code's hop the loser comes back with the CAS error and the
+    observation is accepted; with the swallowing hop BOTH are handed 42 — the counter advanced
+    once — and `SpecObs` rejects the observation (refused write next to a number, no own write,
+    numbers not distinct). -/
+theorem C07_hop_must_forward_error :
+    let st : Store := { entry := some { raw := "41".toList, idx := 5 }, raft := 7 }
+    let s := run codeProto [.read 0, .read 1, .cas 0, .cas 1] (init st)
+    let all : Routing := fun _ => true
+    returnedVia codeHop all s 0 = some 42 ∧ returnedVia codeHop all s 1 = none ∧
+    SpecObs true 41 (obsVia codeHop all 2 s) = true ∧
+    returnedVia swallowingHop all s 0 = some 42 ∧ returnedVia swallowingHop all s 1 = some 42 ∧
+    s.store.raft = 8 ∧
+    refusedIsErr (obsVia swallowingHop all 2 s) = false ∧ ownWriteB (obsVia swallowingHop all 2 s) = false ∧
+    uniqueB (retsOf (obsVia swallowingHop all 2 s)) = false ∧
+    SpecObs true 41 (obsVia swallowingHop all 2 s) = false := by decide
 
 /-! ## every ingredient is needed -/
 
